@@ -30,6 +30,8 @@ func init() {
 			{ID: "C04.6", Desc: "nominated request fields read through all lines", Run: func(c *Ctx) { ruleRLIST(c, "C04.6", "<nominated>") }, MinSites: 1},
 			{ID: "C04.7", Desc: "matcher position refers to the caller's slice", Run: func(c *Ctx) { ruleMatcherIndex(c, "C04.7") }, MinSites: 1},
 			{ID: "C04.11", Desc: "tables of header field names are keyed by canonical names", Run: func(c *Ctx) { ruleHeaderTablesCanonical(c, "C04.11") }, MinSites: 1},
+			{ID: "C04.12", Desc: "the 304 merge replaces the stored Vary (only framing fields are kept back), so that the freshened response is filed under what it now varies on", Run: func(c *Ctx) { ruleMergeFilter(c, "C04.12") }, MinSites: 1},
+			{ID: "C04.13", Desc: "the matcher's position refers to the caller's list", Run: func(c *Ctx) { ruleMatcherIndexesCallersSlice(c, "C04.13") }, MinSites: 1},
 		},
 	})
 }
